@@ -28,6 +28,7 @@ type Config struct {
 	FMV            pebble.FormatMajorVersion
 	DisableWAL     bool
 	ValueSep       bool
+	ValSepMin      int // ValueSeparationPolicy.MinimumSize (default 30)
 	ValSizes       []int
 	AutoCompact    bool
 	MaintEvery     int  // force a flush (and sometimes a compaction) every n write steps; 0 = only scripted
@@ -53,6 +54,10 @@ func Configs() map[string]Config {
 		AutoCompact: true, ValSizes: []int{0, 0, 300, 0, 9000, 0, 40000}, MaintEvery: 4})
 	add(Config{Name: "valsep", FMV: pebble.FormatNewest, MemTableSize: 64 << 10, L0Threshold: 2, SmallFiles: true,
 		AutoCompact: true, ValueSep: true, ValSizes: []int{0, 40, 0, 600, 3, 5000}, MaintEvery: 2})
+	add(Config{Name: "valsep1", FMV: pebble.FormatNewest, MemTableSize: 64 << 10, L0Threshold: 1, SmallFiles: true,
+		AutoCompact: true, ValueSep: true, ValSepMin: 1, ValSizes: []int{0, 40, 0, 600, 3, 5000}, MaintEvery: 1})
+	add(Config{Name: "valsepman", FMV: pebble.FormatNewest, MemTableSize: 64 << 10, L0Threshold: 4, SmallFiles: true,
+		AutoCompact: false, ValueSep: true, ValSepMin: 100, ValSizes: []int{0, 99, 100, 101, 3000, 20000}, MaintEvery: 2})
 	add(Config{Name: "oldfmv", FMV: pebble.FormatMinSupported, MemTableSize: 64 << 10, L0Threshold: 2, SmallFiles: true,
 		AutoCompact: true, MaintEvery: 2})
 	add(Config{Name: "nowal", FMV: pebble.FormatNewest, DisableWAL: true, MemTableSize: 64 << 10, L0Threshold: 2,
@@ -139,7 +144,7 @@ func (r *Runner) MakeOptions() *pebble.Options {
 		o.ValueSeparationPolicy = func() pebble.ValueSeparationPolicy {
 			return pebble.ValueSeparationPolicy{
 				Enabled:                  true,
-				MinimumSize:              30,
+				MinimumSize:              valSepMin(c),
 				MinimumMVCCGarbageSize:   10,
 				MaxBlobReferenceDepth:    3,
 				RewriteMinimumAge:        0,
@@ -681,6 +686,10 @@ func (r *Runner) Exec(e Ev) {
 		r.T.Emit(e)
 	case "maint":
 		r.maint(e.S("kind"))
+	case "checkpoint":
+		r.execCheckpoint(e)
+	case "scanint":
+		r.execScanInt(e)
 	default:
 		r.fail(errors.Newf("unknown event %v", e))
 	}
